@@ -7,11 +7,6 @@ E = [
  ("command-in-head", "<command>", None, "mid-2020 standard has no 'command' in the 'in head' / 'after head' / 'in body' void lists (element dropped 2012/13): it is an ordinary body element; html5lib inserts it as a void element into head", None, False),
  ("dialog-closes-p", "<p><dialog>", None, "'in body' start tags 'address, article, aside, blockquote, center, details, dialog, dir, ...': close a p element in button scope (same list for the end tags); html5lib does not know dialog", "add 'dialog' to the startTagCloseP and endTagBlock name tuples of InBodyPhase", False),
  ("rb-rtc", "<ruby><rb><rt>", None, "implied end tags are dd, dt, li, optgroup, option, p, rb, rp, rt, rtc; start tag rb/rtc: generate implied end tags if ruby in scope; rp/rt: ... except for rtc; html5lib: rb/rtc unknown, rp/rt generate all implied end tags", None, False),
- ("special-category:main", "<b><main></b>", None, "'main' is in the standard's special category (adoption agency furthest block, li/dd loops, any-other-end-tag stop); html5lib's specialElements lacks it", "add (namespaces['html'], 'main') to constants.specialElements", False),
- ("special-category:summary", "<b><summary></b>", None, "'summary' is in the standard's special category; missing from html5lib's specialElements", "add to constants.specialElements", False),
- ("special-category:figcaption", "<b><figcaption></b>", None, "'figcaption' is in the standard's special category; missing from html5lib's specialElements", "add to constants.specialElements", False),
- ("special-category:hgroup", "<b><hgroup></b>", None, "'hgroup' is in the standard's special category; missing from html5lib's specialElements", "add to constants.specialElements", False),
- ("special-category:foreign", "<svg><desc><b></svg>x", None, "MathML mi/mo/mn/ms/mtext/annotation-xml and SVG desc/title are in the standard's special category ('any other end tag' stops there); html5lib's specialElements has only svg foreignObject (witness also needs the name-only match of the svg element)", "add the eight (namespace, name) pairs to constants.specialElements", False),
  ("foreign-name-confusion", "<svg><desc><path></desc><path>", None, "the standard's 'an X element' tests mean HTML-namespace elements; html5lib compares node.name only, so SVG/MathML elements named td, tbody, desc, html ... are closed / foster-parented / matched as if they were HTML (namespace-confusion family, see C10)", None, False),
  ("adoption-agency-not-in-scope-acts-as-other-end-tag", "<b><math><mi></b>x", None, "adoption agency step 8: formatting element in the stack but not in scope -> parse error, return; html5lib calls endTagOther (acts as 'any other end tag', which may pop elements)", "InBodyPhase.endTagFormatting: drop the 'formattingElement in openElements and not elementInScope' alternative from the first test (the 'adoption-agency-4.4' branch below already handles it)", False),
  ("adoption-agency-inner-loop>3", "<a><em><small><u><strong><h1><a></em>", None, "adoption agency 14.5: if inner loop counter > 3 and node is in the list of active formatting elements remove it (then 14.6 removes it from the stack) and the loop continues to the formatting element; html5lib: `while innerLoopCounter < 3` stops after three nodes (2011 algorithm)", None, False),
@@ -31,7 +26,6 @@ E = [
  ("container-empty-string", "x", "", "parseFragment(container='') raises AssertionError in resetInsertionMode ('' is falsy); no element has an empty local name (out of the standard's domain)", None, False),
  ("foreign-attr:xml:base", "<svg xml:base=a>", None, "'adjust foreign attributes' of mid-2020 has no xml:base entry (removed ~2017); html5lib still moves it to the XML namespace", None, False),
  ("svg-attr-legacy", "<svg filterres=d>", None, "'adjust SVG attributes' no longer lists contentScriptType, contentStyleType, externalResourcesRequired, filterRes; html5lib still camel-cases them", None, False),
- ("svg-tagname:feDropShadow", "<svg><fedropshadow>", None, "the SVG element-name table has fedropshadow -> feDropShadow; html5lib's replacements dict lacks it", "add 'fedropshadow': 'feDropShadow' to adjustSVGTagNames", False),
 ]
 known = json.load(open('/verif/work/spectree/known_findings.json'))
 known['findings'] = [f for f in known['findings'] if not (f['property']=='C01' and f['class'].startswith('whatwg:'))]
